@@ -1868,7 +1868,9 @@ where
                     "Writing to remote {} failed. Removing attached uplinks.",
                     remote_id
                 );
-                state.remove_remote(remote_id, DisconnectionReason::ChannelClosed);
+                if state.remote_tracker.is_current(&writer) {
+                    state.remove_remote(remote_id, DisconnectionReason::ChannelClosed);
+                }
             }
             WriteTaskEvent::LaneFailed(lane_id) => {
                 error!(
